@@ -1,7 +1,7 @@
 (* C18 — property theorems.  Statements only: each is closed by [exact] of a lemma proved in
    coq/C18/, followed by Print Assumptions. *)
 From Coq Require Import ZArith List.
-From Scenic Require Import C18.Codec C18.CodecProofs.
+From Scenic Require Import C18.Codec C18.CodecProofs C18.SampleProofs.
 Import ListNotations.
 Open Scope Z_scope.
 
@@ -21,15 +21,61 @@ Theorem C18_write_int_bytes : forall z bs, write_int z = Some bs -> forall b, In
 Proof. exact write_int_bytes. Qed.
 Print Assumptions C18_write_int_bytes.
 
+(* every codec (int, bool, float/Vector/Orientation payloads, str/bytes, None) round-trips *)
+Theorem C18_read_write_value : forall t v b rest,
+  write_value t v = Some b -> read_value t (b ++ rest) = OK (v, rest).
+Proof. exact read_write_value. Qed.
+Print Assumptions C18_read_write_value.
+
+Theorem C18_read_value_truncated : forall t v b p,
+  write_value t v = Some b -> strict_prefix p b -> exists e, read_value t p = Err e.
+Proof. exact read_value_truncated. Qed.
+Print Assumptions C18_read_value_truncated.
+
+(* decoding the encoding of a sample over ANY dependency DAG (shared nodes, multiplexers whose
+   unchosen branches are skipped, nodes reached both directly and through a branch) yields exactly
+   the primitive values that were sampled and consumes exactly the encoding *)
+Theorem C18_sample_roundtrip : forall g pval, wf_dag g -> forall deps bs rest,
+  enc_sample g pval deps = Some bs ->
+  exists pe, dec_sample g deps (bs ++ rest) = OK (pe, rest) /\ forall j v, plook j pe = Some v -> v = pval j.
+Proof. exact sample_roundtrip. Qed.
+Print Assumptions C18_sample_roundtrip.
+
+(* every strict prefix (truncation) of a sample's encoding is refused with an error *)
+Theorem C18_sample_truncated : forall g pval, wf_dag g -> forall deps bs p,
+  enc_sample g pval deps = Some bs -> strict_prefix p bs -> exists e, dec_sample g deps p = Err e.
+Proof. exact sample_truncated. Qed.
+Print Assumptions C18_sample_truncated.
+
+(* data is accepted only when it carries this scenario's format version, program hash and options hash *)
+Theorem C18_header_accepts_only_own : forall exp s r,
+  length (h_ast exp) = 4%nat -> length (h_opts exp) = 4%nat ->
+  read_header exp s = OK r ->
+  exists v, length v = 2%nat /\ le_decode v = h_version exp /\ s = v ++ h_ast exp ++ h_opts exp ++ r.
+Proof. exact header_accepts_only_own. Qed.
+Print Assumptions C18_header_accepts_only_own.
+
 (* divergence is reported exactly when |actual - expected| exceeds the tolerance *)
 Theorem C18_diverged_iff : forall e a tol, 0 <= tol ->
   values_have_diverged e a tol = true <-> tol < Z.abs (a - e).
 Proof. exact diverged_iff. Qed.
 Print Assumptions C18_diverged_iff.
 
-(* non-vacuity: the 600-digit limit is reachable and the boundary cases are as stated *)
+(* non-vacuity: boundary cases are as stated; a DAG with a shared node and a multiplexer round-trips *)
 Example C18_examples :
   write_int 300 = Some [253; 44; 1] /\ write_int (-1) = Some [253; 255; 255] /\
   write_int 252 = Some [252] /\ write_int (2^31) = Some [255; 5; 0; 0; 0; 128; 0] /\
   write_int (2^2040) = None /\ read_int [253; 44] = Err ETrunc.
 Proof. vm_compute. repeat split; reflexivity. Qed.
+
+Definition ex_dag : list node := [NPrim TInt; NPrim TInt; NPrim TInt; NMux 0%nat [1%nat; 2%nat]; NDet [3%nat; 1%nat]].
+Definition ex_pval (i:nat) : val := match i with 0%nat => VInt 1 | 1%nat => VInt 300 | _ => VInt 7 end.
+Example C18_dag_example :
+  wf_dag ex_dag /\ enc_sample ex_dag ex_pval [4%nat; 3%nat] = Some [1; 7; 253; 44; 1] /\
+  dec_sample ex_dag [4%nat; 3%nat] [1; 7; 253; 44; 1] = OK ([(1%nat, VInt 300); (2%nat, VInt 7); (0%nat, VInt 1)], []).
+Proof.
+  split; [|vm_compute; split; reflexivity].
+  intros i n H d Hd. unfold ex_dag in H.
+  do 5 (destruct i as [|i]; [simpl in H; inversion H; subst; simpl in Hd; repeat (destruct Hd as [<-|Hd]; [repeat constructor|]); try contradiction|]).
+  destruct i; discriminate.
+Qed.
